@@ -46,6 +46,7 @@ import EsbuildModel.Impl.JsxText
 import EsbuildModel.Impl.CjsWrapDriver
 import EsbuildModel.Impl.OutPathsDriver
 import EsbuildModel.Impl.StrLex
+import EsbuildModel.Impl.ResolveWalk
 
 open EsbuildModel
 
@@ -102,6 +103,7 @@ def dispatch (kernel : String) (args : List String) : String :=
   | "cjswrap" => CjsWrap.driver args
   | "outpaths" => OutPaths.driver args
   | "strlex" => StrLex.driver args
+  | "tspaths" => ResolveWalk.driver args
   | _ => "bad-kernel"
 
 partial def loop (hin hout : IO.FS.Stream) : IO Unit := do
